@@ -223,59 +223,82 @@ template <class U> std::string check_uint_formatter(U mag, int base, bool upper,
 }
 
 // one alternate ST::format entry point / argument type; `what` names it in the message
-#define C12_EXPECT_FORMAT(EXPR, WHAT)                                                                                                       \
-    do { ST::string f_ = (EXPR); if (str_of(f_) != want) return std::string(WHAT) + " of " + vstr(v) + " gives " + verif::quoted(str_of(f_)) + \
-                                                              ", canonical text is " + verif::quoted(want); } while (0)
+bool format_matches(const ST::string &got, const std::string &want, const char *what, const std::string &value, std::string &why) {
+    if (got.size() == want.size() && memcmp(got.c_str(), want.data(), want.size()) == 0 && got.c_str()[got.size()] == 0) return true;
+    why = std::string(what) + " of " + value + " gives " + verif::quoted(str_of(got)) + ", canonical text is " + verif::quoted(want);
+    return false;
+}
+bool text_matches(const ST::string &got, const std::string &want, const char *fn, const std::string &value, int base, int nargs, bool upper, std::string &why) {
+    if (got.size() == want.size() && memcmp(got.c_str(), want.data(), want.size()) == 0 && got.c_str()[got.size()] == 0) return true;
+    why = std::string(fn) + "(" + value + (nargs >= 2 ? ", " + verif::num(base) : std::string()) + (nargs >= 3 ? (upper ? ", true" : ", false") : "") + ") gives " + verif::quoted(str_of(got)) +
+          ", canonical text is " + verif::quoted(want);
+    return false;
+}
+std::string alias_back_message(const char *fn, bool with_cr, int base, const std::string &text, const std::string &got, bool ok, bool full, const std::string &expected) {
+    return std::string(fn) + (with_cr ? "(result, " : "(") + verif::num(base) + ") of " + verif::quoted(text) + " gives " + got + (with_cr ? std::string(" ok=") + (ok ? "1" : "0") + " full_match=" + (full ? "1" : "0") : std::string()) +
+           ", expected " + expected + (with_cr ? " with ok and full_match" : "");
+}
+std::string reuse_message(const char *fn, int base, const std::string &text, int p, const std::string &got, bool ok, bool full, const std::string &expected) {
+    return std::string(fn) + "(result, " + verif::num(base) + ") of " + verif::quoted(text) + " with a conversion_result last used on " + verif::quoted(std::string(kPrimers[p].text, kPrimers[p].n)) + " gives " + got +
+           " ok=" + (ok ? "1" : "0") + " full_match=" + (full ? "1" : "0") + ", expected " + expected;
+}
+#define C12_EXPECT_FORMAT(EXPR, WHAT) do { if (!format_matches((EXPR), want, WHAT, vs, why)) return why; } while (0)
 
-template <class T> std::string check_print_extras(T v, int base, bool upper, const std::string &want, const ST::string &printed) {
+// the character-like integer types as numbers (not a template: the argument types are fixed)
+std::string check_format_char_types(__int128 v, const char *fmt, const std::string &want, const std::string &vs) {
+    std::string why;
+    if (fits_in<signed char>(v)) C12_EXPECT_FORMAT(ST::format(fmt, (signed char)v), "ST::format(fmt, signed char)");
+    if (fits_in<unsigned char>(v)) C12_EXPECT_FORMAT(ST::format(fmt, (unsigned char)v), "ST::format(fmt, unsigned char)");
+    if (fits_in<char>(v)) C12_EXPECT_FORMAT(ST::format(fmt, (char)v), "ST::format(fmt, char)");
+    if (fits_in<char8_t>(v)) C12_EXPECT_FORMAT(ST::format(fmt, (char8_t)v), "ST::format(fmt, char8_t)");
+    if (fits_in<char16_t>(v)) C12_EXPECT_FORMAT(ST::format(fmt, (char16_t)v), "ST::format(fmt, char16_t)");
+    if (fits_in<char32_t>(v)) C12_EXPECT_FORMAT(ST::format(fmt, (char32_t)v), "ST::format(fmt, char32_t)");
+    if (fits_in<wchar_t>(v)) C12_EXPECT_FORMAT(ST::format(fmt, (wchar_t)v), "ST::format(fmt, wchar_t)");
+    return std::string();
+}
+
+template <class T> std::string check_print_extras(T v, int base, bool upper, const std::string &want, const ST::string &printed, int level) {
     using namespace ST::literals;
     typedef typename std::make_unsigned<T>::type U;
     const bool neg = v < 0;
     const U mag = neg ? U(U(0) - U(v)) : U(v);
     const std::string digits = neg ? want.substr(1) : want;
+    const std::string vs = std::string(type_name<T>()) + " " + vstr(v);
     std::string why = check_uint_formatter<U>(mag, base, upper, digits);
     if (!why.empty()) return why;
     if (mag <= 0xFF) { why = check_uint_formatter<unsigned char>((unsigned char)mag, base, upper, digits); if (!why.empty()) return why; }
 
     // default arguments
+    const char *fn = std::is_signed<T>::value ? "from_int" : "from_uint";
     if (!upper) {
-        ST::string d1 = lib_print_default_case<T>(v, base);
-        if (str_of(d1) != want) return std::string("from_int/from_uint(") + type_name<T>() + " " + vstr(v) + ", " + verif::num(base) + ") gives " + verif::quoted(str_of(d1)) + ", canonical text is " + verif::quoted(want);
-        if (base == 10) {
-            ST::string d0 = lib_print_default_base<T>(v);
-            if (str_of(d0) != want) return std::string("from_int/from_uint(") + type_name<T>() + " " + vstr(v) + ") gives " + verif::quoted(str_of(d0)) + ", canonical text is " + verif::quoted(want);
-        }
+        if (!text_matches(lib_print_default_case<T>(v, base), want, fn, vs, base, 2, false, why)) return why;
+        if (base == 10 && !text_matches(lib_print_default_base<T>(v), want, fn, vs, base, 1, false, why)) return why;
     }
 
+    if (level < 2) return std::string();                  // the exhaustive 16-bit sweep runs the remaining routes on every fourth (value, base) pair
+
     // the fixed-width aliases: from_int64 / from_uint64 print, to_int64 / to_uint64 read back
-    const bool in_i64 = fits_in<int64_t>(v), in_u64 = fits_in<uint64_t>(v);
-    if (in_i64) {
-        ST::string a = ST::string::from_int64((int64_t)v, base, upper);
-        if (str_of(a) != want) return "from_int64(" + vstr(v) + ", " + verif::num(base) + (upper ? ", upper" : "") + ") gives " + verif::quoted(str_of(a)) + ", canonical text is " + verif::quoted(want);
-        if (!upper) {
-            ST::string b = ST::string::from_int64((int64_t)v, base);
-            if (str_of(b) != want) return "from_int64(" + vstr(v) + ", " + verif::num(base) + ") gives " + verif::quoted(str_of(b)) + ", canonical text is " + verif::quoted(want);
-            if (base == 10) { ST::string c = ST::string::from_int64((int64_t)v); if (str_of(c) != want) return "from_int64(" + vstr(v) + ") gives " + verif::quoted(str_of(c)); }
-        }
+    if (fits_in<int64_t>(v)) {
+        const int64_t w = (int64_t)v;
+        if (!text_matches(ST::string::from_int64(w, base, upper), want, "from_int64", vs, base, 3, upper, why)) return why;
+        if (!upper && !text_matches(ST::string::from_int64(w, base), want, "from_int64", vs, base, 2, false, why)) return why;
+        if (!upper && base == 10 && !text_matches(ST::string::from_int64(w), want, "from_int64", vs, base, 1, false, why)) return why;
         ST::conversion_result cr;
         int64_t g = printed.to_int64(cr, base);
-        if (g != (int64_t)v || !cr.ok() || !cr.full_match())
-            return "to_int64(result, " + verif::num(base) + ") of " + verif::quoted(want) + " gives " + verif::num(g) + " ok=" + (cr.ok() ? "1" : "0") + " full_match=" + (cr.full_match() ? "1" : "0") + ", expected " + vstr(v) + " with ok and full_match";
-        if (printed.to_int64(base) != (int64_t)v) return "to_int64(" + verif::num(base) + ") of " + verif::quoted(want) + " gives " + verif::num(printed.to_int64(base)) + ", expected " + vstr(v);
+        if (g != w || !cr.ok() || !cr.full_match()) return alias_back_message("to_int64", true, base, want, verif::num(g), cr.ok(), cr.full_match(), vs);
+        g = printed.to_int64(base);
+        if (g != w) return alias_back_message("to_int64", false, base, want, verif::num(g), false, false, vs);
     }
-    if (in_u64) {
-        ST::string a = ST::string::from_uint64((uint64_t)v, base, upper);
-        if (str_of(a) != want) return "from_uint64(" + vstr(v) + ", " + verif::num(base) + (upper ? ", upper" : "") + ") gives " + verif::quoted(str_of(a)) + ", canonical text is " + verif::quoted(want);
-        if (!upper) {
-            ST::string b = ST::string::from_uint64((uint64_t)v, base);
-            if (str_of(b) != want) return "from_uint64(" + vstr(v) + ", " + verif::num(base) + ") gives " + verif::quoted(str_of(b)) + ", canonical text is " + verif::quoted(want);
-            if (base == 10) { ST::string c = ST::string::from_uint64((uint64_t)v); if (str_of(c) != want) return "from_uint64(" + vstr(v) + ") gives " + verif::quoted(str_of(c)); }
-        }
+    if (fits_in<uint64_t>(v)) {
+        const uint64_t w = (uint64_t)v;
+        if (!text_matches(ST::string::from_uint64(w, base, upper), want, "from_uint64", vs, base, 3, upper, why)) return why;
+        if (!upper && !text_matches(ST::string::from_uint64(w, base), want, "from_uint64", vs, base, 2, false, why)) return why;
+        if (!upper && base == 10 && !text_matches(ST::string::from_uint64(w), want, "from_uint64", vs, base, 1, false, why)) return why;
         ST::conversion_result cr;
         uint64_t g = printed.to_uint64(cr, base);
-        if (g != (uint64_t)v || !cr.ok() || !cr.full_match())
-            return "to_uint64(result, " + verif::num(base) + ") of " + verif::quoted(want) + " gives " + verif::unum(g) + " ok=" + (cr.ok() ? "1" : "0") + " full_match=" + (cr.full_match() ? "1" : "0") + ", expected " + vstr(v) + " with ok and full_match";
-        if (printed.to_uint64(base) != (uint64_t)v) return "to_uint64(" + verif::num(base) + ") of " + verif::quoted(want) + " gives " + verif::unum(printed.to_uint64(base)) + ", expected " + vstr(v);
+        if (g != w || !cr.ok() || !cr.full_match()) return alias_back_message("to_uint64", true, base, want, verif::unum(g), cr.ok(), cr.full_match(), vs);
+        g = printed.to_uint64(base);
+        if (g != w) return alias_back_message("to_uint64", false, base, want, verif::unum(g), false, false, vs);
     }
 
     // a conversion_result that already went through another call: every one of the four earlier states must be overwritten
@@ -285,8 +308,7 @@ template <class T> std::string check_print_extras(T v, int base, bool upper, con
         T got;
         if constexpr (std::is_signed<T>::value) got = static_cast<T>(Conv<long long>::get(printed, cr, base)); else got = static_cast<T>(Conv<unsigned long long>::get(printed, cr, base));
         if (got != v || !cr.ok() || !cr.full_match())
-            return std::string(std::is_signed<T>::value ? "to_long_long" : "to_ulong_long") + "(result, " + verif::num(base) + ") of " + verif::quoted(want) + " with a conversion_result last used on " +
-                   verif::quoted(std::string(kPrimers[p].text, kPrimers[p].n)) + " gives " + vstr(got) + " ok=" + (cr.ok() ? "1" : "0") + " full_match=" + (cr.full_match() ? "1" : "0") + ", expected " + vstr(v) + " with ok and full_match";
+            return reuse_message(std::is_signed<T>::value ? "to_long_long" : "to_ulong_long", base, want, p, vstr(got), cr.ok(), cr.full_match(), vs + " with ok and full_match");
         // ... and the other way round: the flags of the good parse must not survive a later call on the primer text
         long back = primer_string(p).to_long(cr, base);
         if (cr.ok() != kPrimers[p].ok || cr.full_match() != kPrimers[p].full || back != (kPrimers[p].ok ? 1 : 0))
@@ -309,22 +331,17 @@ template <class T> std::string check_print_extras(T v, int base, bool upper, con
         case 3: C12_EXPECT_FORMAT("{o}"_stfmt(v), "\"{o}\"_stfmt(v)"); break;
         default: C12_EXPECT_FORMAT("{b}"_stfmt(v), "\"{b}\"_stfmt(v)"); break;
         }
-        if (fits_in<signed char>(v)) C12_EXPECT_FORMAT(ST::format(fmt, (signed char)v), "ST::format(fmt, signed char)");
-        if (fits_in<unsigned char>(v)) C12_EXPECT_FORMAT(ST::format(fmt, (unsigned char)v), "ST::format(fmt, unsigned char)");
-        if (fits_in<char>(v)) C12_EXPECT_FORMAT(ST::format(fmt, (char)v), "ST::format(fmt, char)");
-        if (fits_in<char8_t>(v)) C12_EXPECT_FORMAT(ST::format(fmt, (char8_t)v), "ST::format(fmt, char8_t)");
-        if (fits_in<char16_t>(v)) C12_EXPECT_FORMAT(ST::format(fmt, (char16_t)v), "ST::format(fmt, char16_t)");
-        if (fits_in<char32_t>(v)) C12_EXPECT_FORMAT(ST::format(fmt, (char32_t)v), "ST::format(fmt, char32_t)");
-        if (fits_in<wchar_t>(v)) C12_EXPECT_FORMAT(ST::format(fmt, (wchar_t)v), "ST::format(fmt, wchar_t)");
+        why = check_format_char_types((__int128)v, fmt, want, vs);
+        if (!why.empty()) return why;
         // several numbers in one call, explicit positions
-        ST::string two = ST::format((std::string(fmt) + "|" + fmt).c_str(), v, v);
-        if (str_of(two) != want + "|" + want) return std::string("ST::format(\"") + fmt + "|" + fmt + "\", v, v) of " + vstr(v) + " gives " + verif::quoted(str_of(two));
+        static const char *const fmts2[5] = {"{}|{}", "{x}|{x}", "{X}|{X}", "{o}|{o}", "{b}|{b}"};
+        if (!format_matches(ST::format(fmts2[fk], v, v), want + "|" + want, "ST::format with two fields", vs, why)) return why;
     }
     return std::string();
 }
 #undef C12_EXPECT_FORMAT
 
-template <class T> std::string check_print(T v, int base, bool upper) {
+template <class T> std::string check_print(T v, int base, bool upper, int level = 2) {
     try {
         const std::string want = ref::int_text(v, base, upper);
         ST::string s = lib_print<T>(v, base, upper);
@@ -352,7 +369,7 @@ template <class T> std::string check_print(T v, int base, bool upper) {
             if constexpr (sizeof(long long) > sizeof(T)) if (!parse_back<long long>(s, base, v, why)) return why;
         }
 
-        why = check_print_extras<T>(v, base, upper, want, s);
+        why = check_print_extras<T>(v, base, upper, want, s, level);
         if (!why.empty()) return why;
 
         // the other two printers give the same digits for bases 10, 16, 8, 2
@@ -1035,13 +1052,13 @@ namespace {
 struct EnumCtx {
     verif::EnumReport &r; uint8_t cur[64];
     explicit EnumCtx(verif::EnumReport &rep) : r(rep) {}
-    template <class T> bool print(T v, int base, bool upper) {
+    template <class T> bool print(T v, int base, bool upper, int level = 2) {
         typedef typename std::make_unsigned<T>::type U;
         directed_print_bytes(cur, type_index<T>(), base - 2, upper, (uint64_t)(U)v);
         verif::set_current(cur, 12);
         r.evaluations++;
         if (v < 0 || (unsigned long long)v >= (unsigned long long)base) r.nontrivial++;
-        std::string why = check_print<T>(v, base, upper);
+        std::string why = check_print<T>(v, base, upper, level);
         if (!why.empty()) {
             if (r.failure.empty()) { r.failure = why; r.failing_case = render_print<T>(v, base, upper); r.failing_bytes.assign(cur, cur + 12); }
             return false;
@@ -1082,8 +1099,9 @@ long verif_enumerate(int shard, int nshards, int tier, verif::EnumReport &r) {
     for (int a = shard; a < 65536; a += nshards) {
         for (int base = 2; base <= 36; base++)
             for (int up = 0; up < 2; up++) {
-                if (!e.print<short>(static_cast<short>(static_cast<unsigned short>(a)), base, up != 0)) return r.evaluations;
-                if (!e.print<unsigned short>(static_cast<unsigned short>(a), base, up != 0)) return r.evaluations;
+                const int level = (((a / nshards) + base) & 3) == 0 ? 2 : 1;
+                if (!e.print<short>(static_cast<short>(static_cast<unsigned short>(a)), base, up != 0, level)) return r.evaluations;
+                if (!e.print<unsigned short>(static_cast<unsigned short>(a), base, up != 0, level)) return r.evaluations;
             }
     }
     if (shard == 0) {
